@@ -440,3 +440,11 @@ class VStr:
     def __init__(self, ident, name='str'):
         self.ident = ident
         self.name = name
+
+
+class VSpecFn:
+    """a specification-level function (uninterpreted function application, ghost accessor, ...) callable from contract text"""
+
+    def __init__(self, fn, name='specfn'):
+        self.fn = fn
+        self.name = name
